@@ -465,6 +465,7 @@ func runC01(c *kit.Ctx) {
 
 	// ---- R5 ---------------------------------------------------------------
 	c.StartRule("R5", "the cache is ordered by region.Compare; lookup returns the predecessor", 2)
+	regionKeysAreNotWrittenThrough(c)
 	overlapSearch(c)
 	{
 		treeF := p.Field("", "keyRegionCache", "regions")
